@@ -95,6 +95,10 @@ def check_stream(cfg, key_prefix='C03', full=True, on_call=None):
               'dynamic' if cfg['dynamic'] else 'static', f'd={d}', f'orders_seen={min(len(r.orders), 6)}']
     if len(cfg['model']['outs']) > 1:
         labels.append('multi_label')
+    if cfg.get('extra'):
+        labels.append('unexplained_extra_features')
+    if cfg['loss'].get('offset'):
+        labels.append('loss_offset')
     if cmp.exactness_lost:
         labels.append('exactness_lost')
     if h.mode == 'exact' and cmp.exact_agreements:
@@ -128,8 +132,18 @@ def recompute_route(h, r, cfg, x, calls, prev_row):
     return None
 
 
+def with_float_fallback(fn, cfg, prefix):
+    """Exact rationals are an observation aid: if the implementation applies float-only (NumPy) functions to losses and raises
+    TypeError on them, the float twin of the same case decides."""
+    res = fn(cfg)
+    if not res.ok and cfg['mode'] == 'exact' and res.key == f'{prefix}:exception:TypeError':
+        res = fn(dict(cfg, mode='float'))
+        res.labels = list(res.labels) + ['exact_arithmetic_unsupported']
+    return res
+
+
 def run_case(cfg):
-    return check_stream(cfg, 'C03', full=True)
+    return with_float_fallback(lambda c: check_stream(c, 'C03', full=True), cfg, 'C03')
 
 
 SUBS = {'stream': run_case}
